@@ -100,7 +100,7 @@ def parse_verdicts(res, n_expected, what):
             except Exception as e:
                 raise MachineryError(f"{what}: unparsable verdict line {l[:200]!r}: {e}")
             x = d.get("x") or []
-            verdicts[int(d["v"])] = (set(d["c"]), ", ".join(str(i) for i in x) if x else None)
+            verdicts[int(d["v"])] = (set(d["c"]), d["o"] if d.get("o") else (", ".join(str(i) for i in x) if x else None))
     if len(verdicts) != n_expected:
         errs = [i for i, l in enumerate(res.lines) if l.startswith("Error:")]
         tail = "\n".join(res.lines[errs[0]:errs[0] + 12] if errs else res.lines[-30:])
